@@ -266,6 +266,36 @@ theorem walk_feasible_decreases (E : B3Env) (A : Mat) (b : Vec) (hR : ExactResid
   rw [hR, hR, e0] at h
   linarith
 
+/-- **an accepted unconstrained solve strictly decreases the objective**: if `x` is supported on `F` and its gradient
+does not vanish on `F` (e.g. `F` has just received a coefficient with a negative multiplier), the solve on `F` has a
+strictly smaller objective -/
+theorem full_step_decreases (E : B3Env) (A : Mat) (b : Vec) (hA : SPD (toMat E.n A)) (hE : ExactEnv E A b)
+    (inF : ℕ → Bool) (x : ℕ → ℚ) (hsup : ∀ i, i < E.n → inF i = false → x i = 0)
+    (hg : ∃ i, i < E.n ∧ inF i = true ∧ grad E.n A b x i ≠ 0) :
+    qf (toMat E.n A) (toVec E.n b) (restr E.n inF (at0 (E.solve inF))) < qf (toMat E.n A) (toVec E.n b) (toVec E.n x) := by
+  set v := restr E.n inF (at0 (E.solve inF)) with hv
+  have hgrad : ∀ i : Fin E.n, inF i = true → gradM (toMat E.n A) (toVec E.n b) v i = 0 := by
+    intro i hi
+    have := hE.solve_exact inF i i.2 hi
+    rw [grad_eq] at this
+    exact this
+  have hopt : (v - toVec E.n x) ⬝ᵥ gradM (toMat E.n A) (toVec E.n b) v = 0 := by
+    apply Finset.sum_eq_zero
+    intro i _
+    by_cases hi : inF i = true
+    · rw [hgrad i hi, mul_zero]
+    · have hi' : inF i = false := by simpa using hi
+      simp only [Pi.sub_apply, hv, restr, hi, toVec, hsup i i.2 hi']; simp
+  have hne : v - toVec E.n x ≠ 0 := by
+    obtain ⟨i, hi, hFi, hgi⟩ := hg
+    intro h0
+    have hvx : v = toVec E.n x := sub_eq_zero.mp h0
+    apply hgi
+    rw [grad_eq E.n A b x ⟨i, hi⟩, ← hvx]
+    exact hgrad ⟨i, hi⟩ hFi
+  have := seg_decrease (toMat E.n A) (toVec E.n b) (toVec E.n x) v hA 1 one_pos (le_refl _) hne hopt
+  rwa [one_smul, add_sub_cancel] at this
+
 /-! ## the `while (!feasible)` loop terminates -/
 
 /-- the passive set after the next `modify_factor` -/
